@@ -87,6 +87,12 @@ fn main() {
                 eprintln!("cannot read {}: {}", args[2], e);
                 std::process::exit(2)
             });
+            if script.lines().any(|l| l.starts_with("c18 ")) {
+                let (ok, log) = monitors::c18::replay(&script);
+                print!("{}", log);
+                println!("{}", if ok { "REPLAY: all expectations hold" } else { "REPLAY: violation reproduced" });
+                std::process::exit(if ok { 0 } else { 1 });
+            }
             if script.lines().any(|l| l.starts_with("cli ")) {
                 let (ok, log) = monitors::cli::replay_cli(&script);
                 print!("{}", log);
